@@ -202,9 +202,9 @@ func ZZ_C49_LocksSequential() {
 	unlocked := false
 	if rt.Fork("a-unlocks") {
 		unlocked = true
-		if a.Unlock(ctx, keyA) == nil {
-			rt.Assert(holds[0].released, "successful-unlock-gives-the-lease-back")
-		}
+		// nobody else has asked for the lock yet: whether the lease has run out or not, the holder can give it back
+		rt.Assert(a.Unlock(ctx, keyA) == nil, "unlock-by-the-holder-succeeds-unless-the-lock-was-lost")
+		rt.Assert(holds[0].released, "successful-unlock-gives-the-lease-back")
 		rt.Assert(a.Unlock(ctx, keyA) != nil, "second-unlock-fails")
 	}
 	rt.Assert(b.Lock(ctx, keyB) == nil, "contender-lock-does-not-fail")
@@ -226,7 +226,10 @@ func ZZ_C49_LocksSequential() {
 		err := a.Unlock(ctx, keyA)
 		rt.Assert(holds[1].granted && !holds[1].released, "late-unlock-leaves-the-new-holder-alone")
 		if err != nil {
+			rt.Assert(keyA == keyB, "unlock-by-the-holder-succeeds-unless-the-lock-was-lost")
 			rt.Reach("late-unlock-refused")
+		} else {
+			rt.Assert(holds[0].released, "successful-unlock-gives-the-lease-back")
 		}
 	}
 	rt.Reach("end")
@@ -255,6 +258,11 @@ func ZZ_C49_LocksConcurrent() {
 		if a.Unlock(ctx, key) == nil {
 			rt.Assert(holds[0].released, "successful-unlock-gives-the-lease-back")
 			rt.Reach("a-unlocked")
+		} else {
+			// the renewal goroutine has been stopped and waited for, so the holder's token is current unless the
+			// lease ran out and the contender was granted the lock meanwhile
+			rt.Assert(holds[1].granted, "unlock-by-the-holder-succeeds-unless-the-lock-was-lost")
+			rt.Reach("a-unlock-found-the-lock-taken")
 		}
 	}
 	errB := <-done
